@@ -9,7 +9,17 @@ func init() {
 			"(R15a); every position written to a schedule row is read from an element of that cache and rows are only written by append (R15b); after every append a " +
 			"sort of the same row lies on every path to the return (R15c). With R15a+R15b no more than maxMemory scheduled leaves are ever resident.",
 		NotDecided: "that TTLs and positions are right (insertion slots of leaves added in that block and deleted later), uniqueness, completeness when the limit is large, optimality.",
-		Rules:      []RuleDef{{ID: "R15", Statement: "memory bound and ordering of the caching schedule", Run: runC15}},
+		Rules: []RuleDef{{ID: "R15", Statement: "memory bound and ordering of the caching schedule", Run: runC15},
+			{ID: "R15d", Statement: "recorded deletions are sorted before de-twinning", Run: func(p *Program, r *Report) {
+				r.Rule("R15d", "ORDER-TAINT: the deletion targets recorded for a block (in the prover's order) never reach a requires-sorted function unsorted, neither when the block is recorded nor when TTLs are generated")
+				or := runOrderEngine(p, r, "R15d", []string{"(*CachingScheduleTracker).AddBlockSummary", "getPrevPos"})
+				_, nSink := reportOrderEvents(p, r, or, orderRules{sink: "R15d"})
+				r.Floor("R15d", "requires-sorted call sites reached from the tracker", nSink, 2)
+			}},
+			{ID: "R15e", Statement: "TTL table is fresh", Run: func(p *Program, r *Report) {
+				r.Rule("R15e", "TTL-FRESH: the generator recomputes the TTL table before reading it, or refreshes it under a flag that recording a block resets")
+				checkTTLFresh(p, r, "R15e")
+			}}},
 	})
 	register(&PropertyDef{
 		ID:    "C01",
@@ -20,6 +30,10 @@ func init() {
 			"the existing root not being the empty root (R01c). Phases and merge sites are found by dataflow role, the hash function by its use of crypto/sha512.",
 		NotDecided: "position arithmetic, deletion, TotalRows handling, equality with the reference value, batching independence — the behavioural core. This is a thin " +
 			"claim: a change that breaks R01a-c is almost certainly caught by the existing tests as well.",
-		Rules: []RuleDef{{ID: "R01", Statement: "sibling agreement of the block-application implementations", Run: runC01}},
+		Rules: []RuleDef{{ID: "R01", Statement: "sibling agreement of the block-application implementations", Run: runC01},
+			{ID: "R01d", Statement: "moves keep the node", Run: func(p *Program, r *Report) {
+				r.Rule("R01d", "MOVE-PAIRING: where the map forest deletes a node at its old position and puts the value read there at a new one (growth, move-up, undo), the put happens on every path that deletes - empty roots included")
+				checkMovePairing(p, r, "R01d")
+			}}},
 	})
 }
